@@ -167,11 +167,26 @@ func genC18WithJoins(g *Gen, tier string, w *bufio.Writer) {
 			w.WriteByte('\n')
 		}
 	}
+	// the group-by node under early-firing triggers: every key may fire many times, each firing retracts what the
+	// previous one sent — a sample of C16's streams, judged for watermark monotonicity and late records
+	buf.Reset()
+	bw = bufio.NewWriter(&buf)
+	genC16(g, tier, bw)
+	bw.Flush()
+	for i, line := range strings.Split(buf.String(), "\n") {
+		if strings.HasPrefix(line, "gb ") && i%5 == 2 {
+			w.WriteString(line)
+			w.WriteByte('\n')
+		}
+	}
 }
 
 func driveC18(toks []string) string {
 	if toks[0] == "sj" || toks[0] == "oj" {
 		return driveC19(toks)
+	}
+	if toks[0] == "gb" {
+		return driveTrigProps(toks)
 	}
 	return driveOps(toks)
 }
